@@ -670,6 +670,11 @@ fn capacity_strategy(t: Tier) -> BoxedStrategy<Scenario> {
             w_try: 8,
             w_sendk: 3,
             fork: 2,
+            // single <-> multi conversions and clones of handles: every producer and consumer mode
+            // is under the bound (round-7 seed C03-9 loses a stream in a futures into_multi)
+            w_convert: 2,
+            w_clone_rx: 1,
+            w_clone_tx: 1,
             ..TrafficParams::default()
         },
             t,
